@@ -16,13 +16,17 @@ import (
 
 type SpinWatch struct {
 	prop string
+	idle int // seconds without a heartbeat before the watchdog looks
 	beat int64
 	cur  atomic.Value
 	stop chan struct{}
 }
 
-func StartSpinWatch(prop string) *SpinWatch {
-	w := &SpinWatch{prop: prop, stop: make(chan struct{})}
+func StartSpinWatch(prop string) *SpinWatch { return StartSpinWatchAfter(prop, 8) }
+
+// StartSpinWatchAfter is StartSpinWatch with a patience other than 8 s (cases that legitimately take seconds of real time).
+func StartSpinWatchAfter(prop string, idleSeconds int) *SpinWatch {
+	w := &SpinWatch{prop: prop, idle: idleSeconds, stop: make(chan struct{})}
 	go w.run()
 	return w
 }
@@ -59,7 +63,7 @@ func (w *SpinWatch) run() {
 			continue
 		}
 		idle++
-		if idle < 8 {
+		if idle < w.idle {
 			continue
 		}
 		running := func(head, _ string) bool {
@@ -85,10 +89,10 @@ func (w *SpinWatch) run() {
 			})
 			if len(locked) > 0 {
 				WriteFuzzViolation(w.prop, Verdict{Sig: w.prop + "/library-goroutine-waits-for-a-lock-for-ever/" + frameOf(locked[0]),
-					Detail: "no progress for 8 s; library goroutines wait for a lock that is not released:\n" + truncate(strings.Join(locked, "\n\n"), 20000)}, rawJSON(cs))
+					Detail: "no progress for several seconds; library goroutines wait for a lock that is not released:\n" + truncate(strings.Join(locked, "\n\n"), 20000)}, rawJSON(cs))
 			} else {
 				all := libGoroutines(func(string, string) bool { return true })
-				WriteFuzzViolation(w.prop, Verdict{Sig: w.prop + "/harness/stalled", Detail: "no progress for 8 s without a running library goroutine:\n" + truncate(strings.Join(all, "\n\n"), 30000)}, rawJSON(cs))
+				WriteFuzzViolation(w.prop, Verdict{Sig: w.prop + "/harness/stalled", Detail: "no progress for several seconds without a running library goroutine:\n" + truncate(strings.Join(all, "\n\n"), 30000)}, rawJSON(cs))
 			}
 		}
 		FlushAll()
